@@ -364,14 +364,15 @@ class Hist(object):
         self.flavour = ('sync', 'async')[ch.weighted([2, 3], 'flavour')]
         self.prefix = 'reader.' + self.flavour
         self.alphabet = ch.choice(ALPHABETS, 'alphabet')
-        lk = ch.draw(4, 'len_kind')
-        if lk == 0:
-            n = ch.draw(9, 'len')
-        elif lk <= 2:
-            n = ch.draw(25, 'len')
-        else:
-            n = ch.draw(65, 'len')
-        self.data = ch.bytes_from(self.alphabet, n, 'byte')
+        # "one more byte?" draws: deleting a (more, byte) pair from the choice
+        # list deletes one byte, zeroing a `more` truncates the data
+        stop_den = (6, 16, 32, 64)[ch.draw(4, 'len_kind')]
+        alpha = self.alphabet
+        na = len(alpha)
+        buf = bytearray()
+        while len(buf) < 64 and ch.draw(stop_den, 'more_data'):
+            buf.append(alpha[ch.draw(na, 'byte')])
+        self.data = bytes(buf)
         mod = sync_mod if self.flavour == 'sync' else async_mod
         ck = ch.draw(12, 'cs_kind')
         if ck <= 9:
@@ -468,7 +469,7 @@ class Hist(object):
         return False
 
     # -- generation (state-aware, all through the chooser) -----------------------
-    def gen_delim(self, cur, allow_illegal):
+    def gen_delim(self, cur, allow_illegal, prefer_ahead=False):
         ch = self.ch
         cs = cur.cs
         maxl = cs if cs < 10 else 10
@@ -476,6 +477,8 @@ class Hist(object):
         k = ch.draw(13, 'delim')
         if k >= 12 and not allow_illegal:
             k = 0
+        if prefer_ahead and k < 4 and rem:
+            k += 4          # a slice of the data ahead instead of random letters
         if k <= 3 or (rem == 0 and k <= 10):
             n = 1 + ch.small(maxl - 1, 'delim_len')
             return ch.bytes_from(self.alphabet, n, 'delim_byte')
@@ -539,8 +542,10 @@ class Hist(object):
                 weights[6] = 0
             if st.iter_used:
                 weights[7] = 0
-        kind = kinds[ch.weighted(weights, 'op')]
         rem = cur.remaining
+        if rem == 0 and weights[6]:
+            weights[6] = 1      # a nested reader at the very end is mostly a dead end
+        kind = kinds[ch.weighted(weights, 'op')]
         cs = cur.cs
         if kind == 'read':
             return ('read', self.gen_size(cur, (rem, cs, 1)))
@@ -559,11 +564,15 @@ class Hist(object):
             # read_until(size=0) never starts the async scan, so an illegal
             # delimiter goes unnoticed there: outside the statement, not issued
             size = self.gen_size(cur, marks, allow_zero=legal)
-            return ('read_until', d, size, bool(ch.draw(3, 'consume') == 2))
+            consume = ch.draw(4, 'consume') == 3
+            if consume and dist >= 0 and ch.draw(2, 'consume_reach'):
+                size = -1   # reaches the delimiter: the consuming path, not DelimiterError
+            return ('read_until', d, size, consume)
         if kind == 'pipe_until':
             # at the end of the data the sync reader does not validate either
-            d = self.gen_delim(cur, rem > 0)
-            return ('pipe_until', d, bool(ch.draw(4, 'sink')), bool(ch.draw(3, 'consume') == 2))
+            consume = ch.draw(4, 'consume') == 3
+            d = self.gen_delim(cur, rem > 0, prefer_ahead=consume)
+            return ('pipe_until', d, bool(ch.draw(4, 'sink')), consume)
         if kind == 'readline':
             i = cur.find(b'\n')
             marks = (i, i + 1, rem) if i >= 0 else (rem, cs)
@@ -574,7 +583,7 @@ class Hist(object):
                 return ('readlines', -1)
             return ('readlines', 1 + ch.draw(rem + 2, 'hint_n'))
         if kind == 'delimit':
-            return ('delimit', self.gen_delim(cur, False))
+            return ('delimit', self.gen_delim(cur, False, prefer_ahead=True))
         if kind == 'pipe':
             return ('pipe', bool(ch.draw(4, 'sink')))
         if kind == 'iter':
